@@ -148,7 +148,11 @@ func engineC07(c *vctx) error {
 	for _, cf := range cfgs {
 		r, err := c07NewRepo(cf.v, cf.mode)
 		if err != nil {
-			return err
+			// Init saves the key and the config through saveUnpacked: a repository that cannot even be
+			// initialised is reported as a config file that was not saved / does not load back
+			c.Case("save/config-init", true, 1, fmt.Sprintf("C07m.CSave %s TConfig (str \"{}\") [] [] false false (Err EOther)", coqN(uint64(cf.v))),
+				fmt.Sprintf("v%d/%s repository.Init failed: %v", cf.v, c07ModeNames[cf.mode], err))
+			continue
 		}
 		key := r.repo.Key()
 		tag := fmt.Sprintf("v%d/%s", cf.v, c07ModeNames[cf.mode])
